@@ -221,7 +221,7 @@ var errUnsupported = errors.New("unsupported combination")
 func applicable(keyClass, cont string) bool {
 	isSM2 := hasPrefix(keyClass, "sm2-")
 	isECDH := hasPrefix(keyClass, "ecdh-")
-	isECDSA := hasPrefix(keyClass, "p256-") || hasPrefix(keyClass, "p384-")
+	isECDSA := isNISTClass(keyClass)
 	isRSA := hasPrefix(keyClass, "rsa-")
 	isSM9Pub := keyClass == "sm9-signmasterpub" || keyClass == "sm9-encmasterpub"
 	isSM9Priv := hasPrefix(keyClass, "sm9-") && !isSM9Pub
